@@ -151,6 +151,20 @@ func addExtras(env *sbx.Env, g *histgen.Repo, r *rand.Rand, idx int) *extras {
 
 	flavor := idx % 4
 	ex.Flavor = []string{"no-odd", "odd", "odd", "odd-then-cleaned"}[flavor]
+	if idx%4 == 1 || idx%8 == 2 {
+		// a realistic, long root .gitattributes (>= 1024 bytes: itself larger than any pointer)
+		ap := filepath.Join(dir, ".gitattributes")
+		cur, _ := os.ReadFile(ap)
+		var sb strings.Builder
+		sb.Write(cur)
+		for i := 0; i < 30; i++ {
+			fmt.Fprintf(&sb, "*.ext%02d filter=lfs diff=lfs merge=lfs -text\n", i)
+		}
+		os.WriteFile(ap, []byte(sb.String()), 0o644)
+		mustOK(env.PlainGit(dir, "add", "-f", "--", ".gitattributes"))
+		commit("long .gitattributes")
+		ex.Log = append(ex.Log, fmt.Sprintf("root .gitattributes grown to %d bytes", sb.Len()))
+	}
 	if flavor != 0 {
 		perm := r.Perm(len(oddTrackedKinds))
 		n1 := 2 + r.Intn(3)
